@@ -1125,6 +1125,22 @@ func ResolveConst(v ssa.Value, env Env) (string, bool) {
 	switch x := Resolve(v, env).(type) {
 	case *ssa.Const:
 		return constText(x), true
+	case *ssa.BinOp:
+		// a counter compared with zero: n == 0 is false once n is (something non-negative) + k, k > 0
+		var other ssa.Value
+		if isZeroConst(x.Y) {
+			other = Resolve(x.X, env)
+		} else if isZeroConst(x.X) && (x.Op == token.EQL || x.Op == token.NEQ) {
+			other = Resolve(x.Y, env)
+		}
+		if other != nil && isPositiveCount(other) {
+			switch x.Op {
+			case token.EQL, token.LEQ, token.LSS:
+				return "false", true
+			case token.NEQ, token.GTR, token.GEQ:
+				return "true", true
+			}
+		}
 	case *ssa.UnOp:
 		if x.Op == token.NOT {
 			if s, ok := ResolveConst(x.X, env); ok {
@@ -1653,6 +1669,20 @@ func LeavesDeep(v ssa.Value, at *ssa.BasicBlock) []Leaf { return leavesDeep(v, a
 func leavesDeep(v ssa.Value, at *ssa.BasicBlock, depth int) []Leaf {
 	var out []Leaf
 	for _, lf := range Leaves(v, at) {
+		// a value read out of a local struct — possibly one a helper built and returned
+		if defs, isField := StructFieldDefs(Forwarded(lf.V)); isField && depth < 2 {
+			for _, d := range defs {
+				blk := at
+				if in, isIn := d.V.(ssa.Instruction); isIn && in.Block() != nil {
+					blk = in.Block()
+				}
+				for _, l2 := range leavesDeep(d.V, blk, depth+1) {
+					fs := append(append(append([]Fact{}, lf.Facts...), d.Facts...), l2.Facts...)
+					out = append(out, Leaf{V: l2.V, Facts: fs})
+				}
+			}
+			continue
+		}
 		call, ok := Forwarded(lf.V).(*ssa.Call)
 		if !ok || depth >= 2 {
 			out = append(out, lf)
@@ -1680,4 +1710,71 @@ func leavesDeep(v ssa.Value, at *ssa.BasicBlock, depth int) []Leaf {
 		}
 	}
 	return out
+}
+
+func isZeroConst(v ssa.Value) bool {
+	k, ok := v.(*ssa.Const)
+	return ok && k.Value != nil && k.Value.Kind() == constant.Int && constant.Sign(k.Value) == 0
+}
+
+func intConstSign(v ssa.Value) (int, bool) {
+	k, ok := v.(*ssa.Const)
+	if !ok || k.Value == nil || k.Value.Kind() != constant.Int {
+		return 0, false
+	}
+	return constant.Sign(k.Value), true
+}
+
+// isNonNegCount: a constant >= 0, a len(), a sum of such, or a phi all of whose definitions are
+// such (a phi under examination is assumed non-negative: counters start at a constant and only
+// grow). Integer overflow is not modelled.
+func isNonNegCount(v ssa.Value) bool { return nonNegCount(v, map[*ssa.Phi]bool{}, 0) }
+
+func nonNegCount(v ssa.Value, assume map[*ssa.Phi]bool, depth int) bool {
+	if depth > 12 {
+		return false
+	}
+	if s, ok := intConstSign(v); ok {
+		return s >= 0
+	}
+	switch x := v.(type) {
+	case *ssa.Call:
+		if b, ok := x.Call.Value.(*ssa.Builtin); ok && b.Name() == "len" {
+			return true
+		}
+	case *ssa.BinOp:
+		if x.Op == token.ADD {
+			return nonNegCount(x.X, assume, depth+1) && nonNegCount(x.Y, assume, depth+1)
+		}
+	case *ssa.Phi:
+		if assume[x] {
+			return true
+		}
+		assume[x] = true
+		for _, e := range x.Edges {
+			if !nonNegCount(e, assume, depth+1) {
+				return false
+			}
+		}
+		return len(x.Edges) > 0
+	}
+	return false
+}
+
+// isPositiveCount: (non-negative count) + (positive constant), or a positive constant.
+func isPositiveCount(v ssa.Value) bool {
+	if s, ok := intConstSign(v); ok {
+		return s > 0
+	}
+	bo, ok := v.(*ssa.BinOp)
+	if !ok || bo.Op != token.ADD {
+		return false
+	}
+	if s, isK := intConstSign(bo.Y); isK && s > 0 && isNonNegCount(bo.X) {
+		return true
+	}
+	if s, isK := intConstSign(bo.X); isK && s > 0 && isNonNegCount(bo.Y) {
+		return true
+	}
+	return false
 }
